@@ -1,10 +1,13 @@
 import Flowjaxv.Proofs.Train
+import Flowjaxv.Proofs.TrainGen
 /-!
 # C16 — training loops stop and select parameters as documented
 
-Property theorems only (lemmas in `Proofs/Train.lean`).  The statements are about the hand-written
-model `Model/Train.lean` (`fitToData`, `fitToVariationalTarget`, `countFruitless`), which the
-correspondence `tools/props/c16.py` ties to the real loops history by history.
+Property theorems only (lemmas in `Proofs/Train.lean`, `Proofs/TrainGen.lean`).  The first part is about the
+hand-written model `Model/Train.lean` (`fitToData`, `fitToVariationalTarget`, `countFruitless`), which the
+correspondence `tools/props/c16.py` ties to the real loops history by history; the second part ("The second
+tie") proves the loops REGENERATED from the source (`Gen/TrainGen.lean`) equal to that model and restates the
+claims on them.
 
 Conventions: `val e` / `trn e` / `loss i` are the scripted losses of epoch `e` / step `i` (0-based);
 parameters are identified by the number of epochs (`fit_to_data`) or steps (variational loop) of
@@ -165,6 +168,205 @@ theorem fit_instance :
 theorem vi_instance :
     fitToVariationalTarget (fun i => 4 ^ i) 4 true = ⟨4, 0, [1, 4, 16, 64]⟩ ∧
     fitToVariationalTarget (fun i => [3, 2, 1, 5].getD i 0) 4 true = ⟨4, 2, [3, 2, 1, 5]⟩ := by
+  decide
+
+/-! ## The second tie: the loops REGENERATED from the source
+
+`Gen/TrainGen.lean` is produced on every run by `tools/py2lean/py2loop.py` from `train_utils.py`, `data_fit.py` and
+`variational_fit.py` (`GenTrain.countFruitless`, `GenTrain.fitToData_loop1` = one epoch, `GenTrain.fitToData_exit` = the final
+selection, `GenTrain.fitToData`, `GenTrain.fitToVariationalTarget_loop1`, …) over the library primitives of
+`Model/TrainWorld.lean` (`W : World α π ω γ υ` = permutations, loss function, optimiser; `π` = parameters, abstract).
+The theorems below (lemmas in `Proofs/TrainGen.lean`) show, for EVERY world, data set, key and configuration, that the
+generated definitions are the hand model above — so the theorems above are statements about the code as it is now — and
+restate the main claims directly on the generated functions.
+
+Reading guide.  `TrainGen.fitData0 W key dist x condition vp` is the state before the first epoch; `TrainGen.dataAt W b d0 e`
+the (key, parameters, optimiser state, data) after `e` un-stopped epochs; `TrainGen.valScript W b d0 e` / `trnScript` the
+validation / train loss the run records in epoch `e` (the mean of the `loss_fn` values of that epoch's calls);
+`TrainGen.viAt W ks d0 i` the (parameters, optimiser state) after `i` variational steps with keys `ks`,
+`TrainGen.viScript W ks d0 i` the loss of step `i`. -/
+section Generated
+open TrainGen
+variable {α π ω γ υ : Type} (W : World α π ω γ υ)
+
+/-- the generated `count_fruitless` (`len(losses) - argmin - 1` over Python ints) is the hand model's on every non-empty
+list; it raises exactly on `[]`; and the loop's comparison `count_fruitless(l) > max_patience` is the hand model's. -/
+theorem gen_count_fruitless_eq (l : List Loss) :
+    (l ≠ [] → GenTrain.countFruitless l = ((countFruitless l : Nat) : Int)) ∧
+    (GenTrain.countFruitless_raises l = true ↔ l = []) ∧
+    (∀ p : Nat, l ≠ [] → (GenTrain.countFruitless l > (p : Int) ↔ countFruitless l > p)) :=
+  ⟨countFruitless_eq l, countFruitless_raises_iff l, fun p h => countFruitless_gt_iff l h p⟩
+
+/-- **Stopping test and best-parameter bookkeeping of one generated epoch** (any unbroken loop state `s`): exactly one train
+and one validation loss are appended; `best_params` becomes the parameters AFTER this epoch's updates iff the new validation
+loss equals `min(losses["val"])`; otherwise the loop breaks iff `count_fruitless(losses["val"]) > max_patience` — the step of
+`Train.fitLoop`.  A broken loop never changes its state again. -/
+theorem gen_fit_stop_eq (p b : Nat) (s : GenTrain.FitToDataSt1 α π ω) (i : Int) :
+    (s.brk = false → ∃ v t,
+      (GenTrain.fitToData_loop1 W p b () s i).losses_val = s.losses_val ++ [v] ∧
+      (GenTrain.fitToData_loop1 W p b () s i).losses_train = s.losses_train ++ [t] ∧
+      (GenTrain.fitToData_loop1 W p b () s i).best_params =
+        (if some v == listMin? (s.losses_val ++ [v]) then (GenTrain.fitToData_loop1 W p b () s i).params else s.best_params) ∧
+      (GenTrain.fitToData_loop1 W p b () s i).brk =
+        (!(some v == listMin? (s.losses_val ++ [v])) && decide (countFruitless (s.losses_val ++ [v]) > p))) ∧
+    (s.brk = true → GenTrain.fitToData_loop1 W p b () s i = s) := by
+  refine ⟨fun hs => ⟨(epochOut W b s.key s.params s.opt_state s.train_data s.val_data).vloss,
+    (epochOut W b s.key s.params s.opt_state s.train_data s.val_data).tloss, ?_⟩, loop1_broken W _ _ s i⟩
+  rw [loop1_eq W p b s i hs]
+  exact ⟨rfl, rfl, rfl, rfl⟩
+
+/-- the final selection as generated: `params = best_params if return_best else params`, and both loss lists are returned -/
+theorem gen_fit_select_eq (rb : Bool) (s : GenTrain.FitToDataSt1 α π ω) :
+    GenTrain.fitToData_exit rb () s = (if rb then s.best_params else s.params, (s.losses_train, s.losses_val)) :=
+  fitToData_exit_eq rb s
+
+/-- **The generated `fit_to_data` is `Train.fitToData`** on the loss scripts the run itself produces: it returns the hand
+model's loss lists, and the parameters after `returned` epochs of updates. -/
+theorem gen_fit_run_eq (key : Path) (dist : π) (x : List α) (condition : Option (List α)) (maxE p b : Nat) (vp : Float) (rb : Bool) :
+    GenTrain.fitToData W key dist x condition (maxE : Int) (p : Int) (b : Int) vp rb =
+      ((dataAt W b (fitData0 W key dist x condition vp)
+          (fitToData (trnScript W b (fitData0 W key dist x condition vp)) (valScript W b (fitData0 W key dist x condition vp)) maxE p rb).returned).params,
+       ((fitToData (trnScript W b (fitData0 W key dist x condition vp)) (valScript W b (fitData0 W key dist x condition vp)) maxE p rb).train,
+        (fitToData (trnScript W b (fitData0 W key dist x condition vp)) (valScript W b (fitData0 W key dist x condition vp)) maxE p rb).val)) :=
+  fitToData_eq W key dist x condition maxE p b vp rb
+
+/-- On the generated `fit_to_data` directly: at most `max_epochs` epochs (= validation losses recorded), one train and one
+validation loss per epoch, and the recorded losses are the epoch means in order. -/
+theorem gen_fit_epochs_le_max (key : Path) (dist : π) (x : List α) (condition : Option (List α)) (maxE p b : Nat) (vp : Float) (rb : Bool) :
+    (GenTrain.fitToData W key dist x condition (maxE : Int) (p : Int) (b : Int) vp rb).2.2.length ≤ maxE ∧
+    (GenTrain.fitToData W key dist x condition (maxE : Int) (p : Int) (b : Int) vp rb).2.1.length =
+      (GenTrain.fitToData W key dist x condition (maxE : Int) (p : Int) (b : Int) vp rb).2.2.length ∧
+    (GenTrain.fitToData W key dist x condition (maxE : Int) (p : Int) (b : Int) vp rb).2.2 =
+      (List.range (GenTrain.fitToData W key dist x condition (maxE : Int) (p : Int) (b : Int) vp rb).2.2.length).map
+        (valScript W b (fitData0 W key dist x condition vp)) ∧
+    (GenTrain.fitToData W key dist x condition (maxE : Int) (p : Int) (b : Int) vp rb).2.1 =
+      (List.range (GenTrain.fitToData W key dist x condition (maxE : Int) (p : Int) (b : Int) vp rb).2.2.length).map
+        (trnScript W b (fitData0 W key dist x condition vp)) := by
+  rw [fitToData_eq]
+  obtain ⟨h1, h2, h3, h4⟩ := fit_losses_recorded (trnScript W b (fitData0 W key dist x condition vp))
+    (valScript W b (fitData0 W key dist x condition vp)) maxE p rb
+  have hle := fit_epochs_le_max (trnScript W b (fitData0 W key dist x condition vp))
+    (valScript W b (fitData0 W key dist x condition vp)) maxE p rb
+  simp only [h3, h4]
+  exact ⟨hle, trivial, h2, h1⟩
+
+/-- On the generated `fit_to_data` directly, for pairwise-distinct recorded validation losses: with `E` the number of epochs
+run, no epoch before the last satisfied the documented stopping rule; if `E < max_epochs` then `E > 0` and epoch `E − 1`
+satisfies it; if no epoch satisfies it all `max_epochs` epochs are run. -/
+theorem gen_fit_stops_exactly (key : Path) (dist : π) (x : List α) (condition : Option (List α)) (maxE p b : Nat) (vp : Float) (rb : Bool)
+    (hd : ∀ i j, i < maxE → j < maxE → valScript W b (fitData0 W key dist x condition vp) i =
+      valScript W b (fitData0 W key dist x condition vp) j → i = j) :
+    (∀ e, e + 1 < (GenTrain.fitToData W key dist x condition (maxE : Int) (p : Int) (b : Int) vp rb).2.2.length →
+      ¬ Stops (valScript W b (fitData0 W key dist x condition vp)) p e) ∧
+    ((GenTrain.fitToData W key dist x condition (maxE : Int) (p : Int) (b : Int) vp rb).2.2.length < maxE →
+      0 < (GenTrain.fitToData W key dist x condition (maxE : Int) (p : Int) (b : Int) vp rb).2.2.length ∧
+      Stops (valScript W b (fitData0 W key dist x condition vp)) p
+        ((GenTrain.fitToData W key dist x condition (maxE : Int) (p : Int) (b : Int) vp rb).2.2.length - 1)) ∧
+    ((∀ e, e < maxE → ¬ Stops (valScript W b (fitData0 W key dist x condition vp)) p e) →
+      (GenTrain.fitToData W key dist x condition (maxE : Int) (p : Int) (b : Int) vp rb).2.2.length = maxE) := by
+  rw [fitToData_eq]
+  have hlen := (fit_losses_recorded (trnScript W b (fitData0 W key dist x condition vp))
+    (valScript W b (fitData0 W key dist x condition vp)) maxE p rb).2.2.2
+  simp only [hlen]
+  exact fit_stops_exactly _ _ maxE p rb hd
+
+/-- On the generated `fit_to_data` directly, `return_best=True`, pairwise-distinct validation losses: the returned parameters
+are those after the updates of epoch `m` (the parameters the validation loss of epoch `m` was evaluated with), where `m` has the
+strictly smallest validation loss of all epochs run.  `return_best=False`: the parameters after the last epoch run. -/
+theorem gen_fit_returns_best (key : Path) (dist : π) (x : List α) (condition : Option (List α)) (maxE p b : Nat) (vp : Float)
+    (hpos : 0 < maxE)
+    (hd : ∀ i j, i < maxE → j < maxE → valScript W b (fitData0 W key dist x condition vp) i =
+      valScript W b (fitData0 W key dist x condition vp) j → i = j) :
+    (∃ m, m < (GenTrain.fitToData W key dist x condition (maxE : Int) (p : Int) (b : Int) vp true).2.2.length ∧
+      (GenTrain.fitToData W key dist x condition (maxE : Int) (p : Int) (b : Int) vp true).1 =
+        (dataAt W b (fitData0 W key dist x condition vp) (m + 1)).params ∧
+      ∀ j, j < (GenTrain.fitToData W key dist x condition (maxE : Int) (p : Int) (b : Int) vp true).2.2.length → j ≠ m →
+        valScript W b (fitData0 W key dist x condition vp) m < valScript W b (fitData0 W key dist x condition vp) j) ∧
+    (GenTrain.fitToData W key dist x condition (maxE : Int) (p : Int) (b : Int) vp false).1 =
+      (dataAt W b (fitData0 W key dist x condition vp)
+        (GenTrain.fitToData W key dist x condition (maxE : Int) (p : Int) (b : Int) vp false).2.2.length).params := by
+  rw [fitToData_eq, fitToData_eq]
+  have hlen := fun rb => (fit_losses_recorded (trnScript W b (fitData0 W key dist x condition vp))
+    (valScript W b (fitData0 W key dist x condition vp)) maxE p rb).2.2.2
+  simp only [hlen]
+  obtain ⟨m, hm, hr, hmin⟩ := fit_returns_best (trnScript W b (fitData0 W key dist x condition vp))
+    (valScript W b (fitData0 W key dist x condition vp)) maxE p hpos hd
+  exact ⟨⟨m, hm, by rw [hr], hmin⟩, by rw [fit_returns_last]⟩
+
+/-- **One generated step of the variational loop**: the loss is appended; `best_params` receives the parameters the loss was
+evaluated at (PRE-update) iff the loss equals `min(losses)`; then `params = new_params`. -/
+theorem gen_vi_step_eq (s : GenTrain.FitToVariationalTargetSt1 π ω) (key : Path) :
+    GenTrain.fitToVariationalTarget_loop1 W () s key =
+      ⟨(GenTrain.step W s.params () (viArgs key) s.opt_state).1,
+       (GenTrain.step W s.params () (viArgs key) s.opt_state).2.1,
+       s.losses ++ [(GenTrain.step W s.params () (viArgs key) s.opt_state).2.2],
+       if (some (GenTrain.step W s.params () (viArgs key) s.opt_state).2.2 ==
+            listMin? (s.losses ++ [(GenTrain.step W s.params () (viArgs key) s.opt_state).2.2]))
+         then s.params else s.best_params⟩ :=
+  vi_loop1_eq W s key
+
+/-- the generated `step`: loss and gradient at the given parameters, optimiser update, `apply_updates` -/
+theorem gen_step_eq (params : π) (args : LossArgs α) (o : ω) :
+    GenTrain.step W params () args o =
+      (W.applyUpdates params (W.optUpdate (W.valueAndGrad params args).2 o params).1,
+       (W.optUpdate (W.valueAndGrad params args).2 o params).2, (W.valueAndGrad params args).1) :=
+  step_eq W params args o
+
+theorem gen_vi_select_eq (rb : Bool) (s : GenTrain.FitToVariationalTargetSt1 π ω) :
+    GenTrain.fitToVariationalTarget_exit rb () s = (if rb then s.best_params else s.params, s.losses) :=
+  fitToVariationalTarget_exit_eq rb s
+
+/-- **The generated `fit_to_variational_target` is `Train.fitToVariationalTarget`** on the loss script the run produces
+(keys `jr.split(key, steps)`, one per step). -/
+theorem gen_vi_run_eq (key : Path) (dist : π) (steps : Nat) (rb : Bool) :
+    GenTrain.fitToVariationalTarget W key dist (steps : Int) rb =
+      ((viAt W (Py.split key steps) (dist, W.optInit dist)
+          (fitToVariationalTarget (viScript W (Py.split key steps) (dist, W.optInit dist)) steps rb).returned).1,
+       (fitToVariationalTarget (viScript W (Py.split key steps) (dist, W.optInit dist)) steps rb).losses) :=
+  fitToVariationalTarget_eq W key dist steps rb
+
+/-- On the generated `fit_to_variational_target` directly: exactly `steps` losses, the loss of step `i` evaluated at the
+parameters after `i` updates; `return_best=False` returns the parameters after all `steps` updates; `return_best=True` with
+pairwise-distinct losses returns the parameters after `m` updates where step `m` has the strictly smallest loss — the
+parameters at which that loss was evaluated. -/
+theorem gen_vi_main (key : Path) (dist : π) (steps : Nat) :
+    (∀ rb, (GenTrain.fitToVariationalTarget W key dist (steps : Int) rb).2 =
+      (List.range steps).map (viScript W (Py.split key steps) (dist, W.optInit dist))) ∧
+    (∀ rb, (GenTrain.fitToVariationalTarget W key dist (steps : Int) rb).2.length = steps) ∧
+    (GenTrain.fitToVariationalTarget W key dist (steps : Int) false).1 =
+      (viAt W (Py.split key steps) (dist, W.optInit dist) steps).1 ∧
+    ((∀ i j, i < steps → j < steps → viScript W (Py.split key steps) (dist, W.optInit dist) i =
+        viScript W (Py.split key steps) (dist, W.optInit dist) j → i = j) → 0 < steps →
+      ∃ m, m < steps ∧ (GenTrain.fitToVariationalTarget W key dist (steps : Int) true).1 =
+          (viAt W (Py.split key steps) (dist, W.optInit dist) m).1 ∧
+        ∀ j, j < steps → j ≠ m → viScript W (Py.split key steps) (dist, W.optInit dist) m <
+          viScript W (Py.split key steps) (dist, W.optInit dist) j) := by
+  refine ⟨fun rb => ?_, fun rb => ?_, ?_, fun hd hpos => ?_⟩
+  · rw [fitToVariationalTarget_eq]; exact (vi_losses_recorded _ steps rb).1
+  · rw [fitToVariationalTarget_eq]; exact (vi_losses_recorded _ steps rb).2
+  · rw [fitToVariationalTarget_eq, vi_returns_last]
+  · rw [fitToVariationalTarget_eq]
+    obtain ⟨hlt, hmin⟩ := (vi_returns_best _ steps hd).1 hpos
+    exact ⟨_, hlt, rfl, hmin⟩
+
+end Generated
+
+/-- non-vacuity of the generated loops: a concrete world (parameters = update count, the loss of a step = a table lookup at
+the parameters) — the generated variational loop on `[3,2,1,5]` returns the parameters after 2 updates (loss 1), on
+`[1,4,16,64]` the initial ones; and one generated `fit_to_data` epoch loop (2 train batches, 1 validation batch per epoch,
+validation losses `[5,3,4,6]`, patience 1) stops after 4 epochs with `best_params` after epoch 1 (4 updates). -/
+theorem gen_instance :
+    GenTrain.fitToVariationalTarget (α := Nat) (γ := Unit) (υ := Unit) (ω := Unit)
+      ⟨fun _ m => List.range m, fun p _ => ([3, 2, 1, 5].getD p 0, ()), fun _ _ => 0, fun _ => (), fun _ _ _ => ((), ()),
+        fun p _ => p + 1, fun l => l.headD 0, fun l _ => l⟩ [] (0 : Nat) 4 true = (2, [3, 2, 1, 5]) ∧
+    GenTrain.fitToVariationalTarget (α := Nat) (γ := Unit) (υ := Unit) (ω := Unit)
+      ⟨fun _ m => List.range m, fun p _ => ([1, 4, 16, 64].getD p 0, ()), fun _ _ => 0, fun _ => (), fun _ _ _ => ((), ()),
+        fun p _ => p + 1, fun l => l.headD 0, fun l _ => l⟩ [] (0 : Nat) 4 true = (0, [1, 4, 16, 64]) ∧
+    (fun s : GenTrain.FitToDataSt1 Nat Nat Unit => (s.params, s.best_params, s.losses_val, s.brk))
+      (List.foldl (GenTrain.fitToData_loop1 (α := Nat) (γ := Unit) (υ := Unit)
+        ⟨fun _ m => List.range m, fun p _ => ((p : Int), ()), fun p _ => [5, 3, 4, 6, 7, 1].getD (p / 2 - 1) 0, fun _ => (),
+          fun _ _ _ => ((), ()), fun p _ => p + 1, fun l => l.headD 0, fun l _ => l⟩ 1 2 ())
+        ⟨[], 0, 0, (), [[0, 1, 2, 3, 4]], [[5, 6]], [], [], false⟩ (Py.range 6)) = (8, 4, [5, 3, 4, 6], true) := by
   decide
 
 end C16
